@@ -40,15 +40,15 @@ var statusKinds = []string{"status-overclaim"}
 // disconnection while the node is checking it.
 var raceKinds = []string{"big-hangup"}
 
-const bigTxSize = 4 << 20
+const bigTxSize = 2 << 20
 
 func allKinds() []string {
 	var k []string
+	k = append(k, raceKinds...)
 	k = append(k, bodyKinds...)
 	k = append(k, commitKinds...)
 	k = append(k, forgeKinds...)
 	k = append(k, statusKinds...)
-	k = append(k, raceKinds...)
 	return k
 }
 
